@@ -28,7 +28,7 @@ def sc_len(sc):
 
 
 # ------------------------------------------------------------ input assemblies
-def gen_input(rng, style=None, nscaf=None, hap_names=False, maxrows=8, both_strands=True):
+def gen_input(rng, style=None, nscaf=None, hap_names=False, maxrows=8, both_strands=True, double_gaps=0.0):
     style = style or rng.choice(["fasta", "tpf", "tpf"])
     nscaf = nscaf or rng.randint(1, 5)
     scs = []
@@ -48,6 +48,10 @@ def gen_input(rng, style=None, nscaf=None, hap_names=False, maxrows=8, both_stra
                     g = rng.choice([1, 10, 100, 200, 200, 500])
                     rows.append(["G", g, rng.choice(["scaffold", "scaffold", "contig"]) if style != "fasta" else "scaffold"])
                     pos += g
+                    if style != "fasta" and rng.random() < double_gaps:
+                        g2 = rng.choice([1, 5, 100])
+                        rows.append(["G", g2, "contig"])
+                        pos += g2
             if style == "fasta":
                 rows.append(["F", name, pos + 1, pos + ln, 1, []])
             else:
@@ -392,3 +396,121 @@ class OutIndex:
 
     def frag_bounds(self, name):
         return [(r[2], r[3]) for r, _, _ in self.by_name.get(name, [])]
+
+
+def gen_straddle(rng):
+    """inputs with slivers (contigs of 1 .. 2 error lengths) between long contigs,
+    and baits whose boundaries fall inside or next to the slivers, abutting or
+    leaving a small hole / overlap: the geometry in which the overhang resolver's
+    two-premise rule and its general rule both have something to decide"""
+    bpt = rng.choice([1, 10, 10, 100, 7, 25])
+    err = bpt + 1
+    nsc = rng.randint(1, 2)
+    scs = []
+    ptx_rows = []
+    ctg = 0
+    for si in range(nsc):
+        rows = []
+        pos = 0
+        bounds = []
+        for k in range(rng.randint(2, 5)):
+            if k:
+                g = rng.choice([1, 1, 10, bpt])
+                rows.append(["G", g, "scaffold"])
+                pos += g
+            big = k % 2 == 0
+            ln = rng.randint(5 * err, 60 * err) if big else rng.randint(1, 2 * err)
+            ctg += 1
+            rows.append(["F", f"ctg{ctg}", 1, ln, rng.choice([1, 1, -1]), []])
+            if not big:
+                bounds.append((pos + 1, pos + ln))
+            pos += ln
+        name = f"S{si + 1}"
+        scs.append({"name": name, "rows": rows})
+        L = pos
+        cuts = []
+        for (a, b) in bounds:
+            if rng.random() < 0.8:
+                cuts.append(rng.randint(max(1, a - err), min(L - 1, b + err)))
+        cuts = sorted(set(c for c in cuts if 1 <= c < L))
+        start = 1
+        pieces = []
+        for c in cuts + [L]:
+            if c < start:
+                continue
+            pieces.append([start, c])
+            start = c + 1 + rng.choice([0, 0, 0, rng.randint(1, err), -rng.randint(1, err)])
+            start = max(1, start)
+        for (a, b) in pieces:
+            if a <= b:
+                ptx_rows.append(["F", name, a, b, rng.choice([1, 1, -1]), rng.choice([[], ["Painted"]])])
+    rng.shuffle(ptx_rows)
+    pscs = []
+    i = 0
+    while i < len(ptx_rows):
+        n = rng.choice([1, 1, 2])
+        rows = []
+        for r in ptx_rows[i : i + n]:
+            if rows:
+                rows.append(list(PGAP))
+            rows.append(r)
+        painted = any("Painted" in r[5] for r in rows if r[0] == "F")
+        for r in rows:
+            if r[0] == "F":
+                r[5] = ["Painted"] if painted else []
+        pscs.append({"name": f"Scaffold_{len(pscs) + 1}", "rows": rows})
+        i += n
+    return {"scaffolds": scs}, {"bpt": f"{bpt}.000000", "scaffolds": pscs}
+
+
+def gen_boundary_sweep(rng):
+    """one scaffold A | gap | B (| gap | C) cut in two on the texel grid so that the cut lies exactly
+    d bases inside a contig, d swept around 1, 2 and 3 error lengths; texel sizes with fractional part
+    below and above one half"""
+    bpt_str = rng.choice(["10.700000", "10.300000", "7.500001", "33.999000", "2.600000", "100.000000", "1.000000", "19.870000"])
+    bpt = Fraction(bpt_str)
+    err = 1 + int(bpt)
+    k = rng.randint(12, 40)                      # the cut is after texel k
+    x = tx(bpt, k)
+    d = rng.choice([1, err - 1, err, err + 1, 2 * err, 3 * err - 1, 3 * err, 3 * err + 1, 3 * err + 2, 3 * err + 3, 4 * err])
+    side = rng.choice(["into_next", "into_prev"])
+    g = rng.choice([0, 1, 10, 200])
+    strandA, strandB = rng.choice([1, -1]), rng.choice([1, -1])
+    if side == "into_next":
+        # B starts at x - d + 1: the cut is d bases inside B
+        la = x - d - g
+        if la < 1:
+            la, g = x - d, 0
+        lb = d + rng.randint(4 * err, 30 * err)
+    else:
+        # A ends at x + d: the cut is d bases before the end of A
+        la = x + d
+        lb = rng.randint(4 * err, 30 * err)
+    if la < 1:
+        la = 1
+    rows = [["F", "ctgA", 1, la, strandA, []]]
+    if g:
+        rows.append(["G", g, "scaffold"])
+    rows.append(["F", "ctgB", 1, lb, strandB, []])
+    if rng.random() < 0.5:
+        rows += [["G", 100, "scaffold"], ["F", "ctgC", 1, rng.randint(3 * err, 10 * err), 1, []]]
+    inp = {"scaffolds": [{"name": "S1", "rows": rows}]}
+    L = sc_len(inp["scaffolds"][0])
+    nt = int(Fraction(L) / bpt)
+    if nt - k < 2:
+        # make sure the second piece has at least two texels
+        rows[-1][3] += tx(bpt, k + 3) - tx(bpt, nt) + err
+        L = sc_len(inp["scaffolds"][0])
+        nt = int(Fraction(L) / bpt)
+    pieces = [
+        {"src": 0, "name": "S1", "ka": 0, "kb": k, "nt": nt, "start": 1, "end": x, "whole": False},
+        {"src": 0, "name": "S1", "ka": k, "kb": nt, "nt": nt, "start": x + 1, "end": tx(bpt, nt), "whole": False},
+    ]
+    order = [0, 1] if rng.random() < 0.5 else [1, 0]
+    scs = []
+    for gi, pi in enumerate(order):
+        p = pieces[pi]
+        p["strand"] = rng.choice([1, -1])
+        p["dest"], p["dest_pos"], p["painted"], p["tags"] = gi, 0, False, []
+        scs.append({"name": f"Scaffold_{gi + 1}", "rows": [["F", "S1", p["start"], p["end"], p["strand"], []]]})
+    return inp, {"bpt": bpt_str, "scaffolds": scs}, pieces
